@@ -183,6 +183,7 @@ pub struct Aggregate {
     pub samples: Vec<String>,
     pub disagreements: Vec<serde_json::Value>,
     pub violations: Vec<serde_json::Value>,
+    pub kinds: BTreeMap<String, u64>,
 }
 
 fn fnv(s: &str) -> u64 {
@@ -204,6 +205,7 @@ impl Aggregate {
             samples: Vec::new(),
             disagreements: Vec::new(),
             violations: Vec::new(),
+            kinds: BTreeMap::new(),
         }
     }
     pub fn add(&mut self, prop: &str, seed: u64, stream: &str, index: u64, o: CaseOutcome) {
@@ -233,7 +235,13 @@ impl Aggregate {
             }
         }
         if let Some(v) = &o.violation {
-            if self.violations.len() < 50 {
+            // keep a few replays per kind of violation (digits stripped), so that one frequent kind
+            // does not crowd out the others
+            let norm: String = v.chars().filter(|c| !c.is_ascii_digit()).take(60).collect();
+            let key = format!("{}|{}|{:?}", stream, norm, o.violation_class);
+            let seen = self.kinds.entry(key).or_insert(0);
+            *seen += 1;
+            if *seen <= 3 && self.violations.len() < 300 {
                 self.violations.push(serde_json::json!({
                     "property": prop, "kind": "property", "seed": seed, "stream": stream, "index": index,
                     "input": o.input, "what": v, "class": o.violation_class,
